@@ -247,6 +247,9 @@ pub fn case(cx: &mut Case) -> CaseResult {
     label_kinds(cx, prog);
     let typed = type_check(prog, true).map_err(|e| harness_error(format!("generated IR rejected: {:?}; {}", e, prog.render())))?;
     let mut vb = ValBuilder::new();
+    // witness values are built with the plain constructors: the decoders of Value are part of
+    // what this round trip tests (RedeemNode::decode reads witnesses with from_compact_bits)
+    vb.constructors_only = true;
     let mut s = cx.src.clone();
     let wit = gen_witnesses(prog, &typed, &mut s, &mut vb);
     cx.src = s;
